@@ -48,6 +48,9 @@ Full statement / proved / missing
                       in a backing array that the step allocated: no pool value that existed before has a slice of that
                       array, and the array holds exactly the result (then spare cells).  Instance for `Sort` on an Array
                       after an arbitrary history (`Array.Sort` copies, then sorts the copy).
+* `C08_observers_heap_unchanged` — inferring a type, printing (any format, any format map), hashing, comparing, walking,
+                      serialising to a streamer: the heap afterwards is identical (arrays, cells, capacities), for every
+                      table.
 * `C08_pointer_stable` — pointer = copy: what a reference to pool value `n` denotes (what `a.Add(b)` stores for `b`) is the
                       same at every later time; this is the theorem behind modelling a nested container by its content.
 * `C08_stable`      — corollary: what value `i` holds at any two later times is the same.
@@ -222,6 +225,24 @@ theorem C08_sort_fresh (P : Policy) (tbl : Table) (ht : IdiomsSafe tbl) (ops : L
 /-- non-vacuity: after `[2, 1]` the receiver 0 is an array, so `C08_sort_fresh` applies (and its result is `[1, 2]`) -/
 example : (runHeap samplePolicy' sliceIdioms [.lit (.arr [.int 2, .int 1])]).look 0 = some (.arr, [.int 2, .int 1]) ∧
     sortVals [.int 2, .int 1] = [.int 1, .int 2] := by
+  constructor <;> rfl
+
+/-- OBSERVERS (inferring a type, printing — with any format or format map —, hashing, comparing, walking, serialising to
+    a streamer: every step whose answer is not a collection) are storage no-ops: the heap afterwards is the heap before,
+    cell for cell and array for array (not only the contents of the values: their capacities and sharing too); the step's
+    pool entry is a marker.  Holds for EVERY table (no side condition): the model has no other semantics for them; that
+    the code has none either is the obligation `C08_field_writes_safe` + the write rows of `C08_idioms_safe`. -/
+theorem C08_observers_heap_unchanged (P : Policy) (tbl : Table) (s : HState) (op : Op) (m : String)
+    (h : opSem s.look op = .mark m) :
+    (stepHeap P tbl s op).heap = s.heap ∧ (stepHeap P tbl s op).pool = s.pool ++ [.mark m] ∧
+    (stepHeap P tbl s op).dead = s.dead := by
+  unfold stepHeap
+  rw [h]
+  exact ⟨rfl, rfl, rfl⟩
+
+/-- non-vacuity: printing / hashing an array, and comparing two values, are such steps -/
+example : opSem (runHeap samplePolicy' sliceIdioms [.lit (.arr [.int 2, .int 1])]).look (.obs 0 none) = .mark "-" ∧
+    opSem (runHeap samplePolicy' sliceIdioms [.lit (.arr [.int 2, .int 1])]).look (.obs 0 (some 0)) = .mark "-" := by
   constructor <;> rfl
 
 /-- instantiated on the code as it is now -/
